@@ -21,6 +21,7 @@ YOUR TASK: produce THREE independent, realistic source changes ("seeded defects"
   (c) breaks the property above for some inputs, and
   (d) is SUBTLE: it needs something specific to manifest — an unusual input shape, a multi-step sequence of calls, a particular ordering/interleaving, a particular nesting depth or position, or two cooperating code sites that each look fine alone. Do NOT produce a change that ordinary use or nearly every input would expose at once. Think of the kind of bug a tired maintainer could plausibly introduce in a refactor or "optimisation" and that code review could miss.
 The three changes must be different in kind (different code site or mechanism) and each must apply on its own to the pristine worktree.
+CLAUSE-DRIVEN ROUND: read the STATEMENT above clause by clause (every "and", every parenthesis, every "also", every listed case, every named function or option). For each of your three changes pick a DIFFERENT clause, preferably the ones that look least likely to be exercised by somebody checking the property's headline (a subordinate clause, the last item of a list, a named helper or option, an "on error" or "on success" half, an "each"/"every"/"exactly" quantifier, an ordering or attribution detail), and break ONLY that clause while everything else in the statement keeps holding. State in meta.json which clause you targeted ("clause": "...quoted words...").
 Two earlier rounds of reviewers have already tried (1) the obvious single-site edits and (2) aliasing / stale caches / early exits / error paths at the usual scale of unit-test inputs. In this round aim at the EDGES OF THE LEGAL INPUT SPACE and at API surface that is rarely exercised: inputs that are legal but large or extreme (dozens of types or relations, nesting five or more levels deep, very long names, many files, many conditions or parameters, every parameter type, long type-restriction lists, repeated or conditioned restrictions), legal but unusual characters (upper case, Unicode in comments or condition expressions or file names, names equal to keywords, names containing '-', '.', '/', '_' in odd positions, CRLF, tabs, form feed), optional arguments and options (WithIncludeSourceInformation, schema versions, empty or single-element lists, nil versus empty maps, models without metadata, ids), the second and later calls on the same object, and the less-travelled exported helpers that the property's behaviour also flows through. The change must still be the kind of thing a maintainer could plausibly write (a refactor, an optimisation, a "simplification", a clean-up), not an arbitrary magic-constant trap.
 Earlier reviewers have already tried the obvious single-site edits at the obvious places in the anchor files (off-by-one in a loop, a swapped operand, a dropped element, a removed sort, a skipped check). Aim for something they would NOT have tried: aliasing or shared mutable state, a cache or memo that goes stale, an early exit that is only wrong for a rare shape, an interaction of two features (e.g. conditions x wildcards, modules x comments, nesting x ordering), a boundary (length, depth, count, a specific character class or Unicode), an error path that swallows or misattributes, or a helper in another file the anchored code depends on (pkg/go/utils, pkg/go/errors, pkg/go/validation, the generated parser in pkg/go/gen, the grammar files) - as long as the visible effect is a violation of the property above.
 
